@@ -253,3 +253,9 @@ def run(ctx):
     # the directory's notifications under subscriber faults (DirFault.tla, design-notes/EXT-dirfault.md)
     import ext_dirfault
     ext_dirfault.run(ctx)
+
+    # the registry across processes: a directory server, service servers registering through bus/services'
+    # remote namespace (Reserve / Enable / Remove as requests on a link that can be cut), client sessions that
+    # find a service through the directory and dial its server (Federation.tla, design-notes/EXT-federation.md)
+    import ext_federation
+    ext_federation.run(ctx, "C15")
